@@ -52,6 +52,9 @@ type Safety struct {
 	okWrites map[int]ClientInfo
 
 	// snapshots
+	openRecv   map[string]*recvFile // node -> snapshot file being received
+	mixedFiles map[int]string       // file id -> description of the foreign chunk it accepted
+	inflightIS map[string]map[int]*MsgInfo // node -> InstallSnapshot requests being handled
 	localSnaps map[string]bool // "index/term/len/hash" produced locally
 	snapFiles  []*Event
 	restores   []*Event
@@ -64,8 +67,14 @@ type Safety struct {
 	// config
 	Static bool // static membership: voters fixed (enables C04's voter set from the disk event itself)
 
-	viol []Violation
-	seen map[string]bool
+	viol     []Violation
+	seen     map[string]bool
+	poisoned bool
+}
+
+type recvFile struct {
+	file        int
+	index, term uint64
 }
 
 type replyRec struct {
@@ -123,11 +132,15 @@ func NewSafety() *Safety {
 		votes: map[string]map[uint64]string{}, persisted: map[string][2]any{}, maxTerm: map[string]uint64{}, termAtDel: map[int]uint64{}, lastAtDel: map[int][2]uint64{},
 		sets: map[string][]setRec{}, delSeq: map[int]int{}, replies: map[string][]replyRec{}, confs: map[string]*ConfInfo{},
 		rvReal: map[string]int{}, rvPre: map[string]int{}, incStatus: map[string]StatusInfo{},
+		openRecv: map[string]*recvFile{}, mixedFiles: map[int]string{}, inflightIS: map[string]map[int]*MsgInfo{},
 		invokes: map[int]*Event{}, okWrites: map[int]ClientInfo{}, localSnaps: map[string]bool{}, seen: map[string]bool{},
 	}
 }
 
 func (s *Safety) v(prop, sig, msg string, seqs ...int) {
+	if s.poisoned {
+		return // everything after a mixed snapshot file is a consequence of that (known) root cause
+	}
 	key := sig + "|" + msg
 	if s.seen[key] {
 		return
@@ -194,6 +207,12 @@ func (s *Safety) On(e *Event) []Violation {
 		m := e.Msg
 		s.termAtDel[m.ID] = s.maxTerm[e.Node]
 		s.delSeq[m.ID] = e.Seq
+		if m.Kind == "IS" {
+			if s.inflightIS[e.Node] == nil {
+				s.inflightIS[e.Node] = map[int]*MsgInfo{}
+			}
+			s.inflightIS[e.Node][m.ID] = m
+		}
 		if m.Kind == "RV" {
 			lt, li := s.lastOf(e.Node)
 			s.lastAtDel[m.ID] = [2]uint64{lt, li}
@@ -246,6 +265,18 @@ func (s *Safety) onStorage(e *Event) {
 	}
 	l := s.sh(e.Node)
 	switch st.Op {
+	case "snap.new":
+		if st.Ctx == "InstallSnapshot" {
+			s.openRecv[e.Node] = &recvFile{file: st.File, index: st.Index, term: st.Term}
+		}
+		return
+	case "snap.close", "snap.discard":
+		if o := s.openRecv[e.Node]; o != nil && o.file == st.File {
+			delete(s.openRecv, e.Node)
+		}
+		return
+	case "snap.write":
+		return
 	case "log.append":
 		for _, en := range st.Ents {
 			li, _ := l.last()
@@ -347,6 +378,7 @@ func (s *Safety) onStatus(e *Event) {
 	if old, ok := s.incStatus[key]; ok {
 		if st.Commit < old.Commit {
 			s.v("C06", "C06/commit-decreased", fmt.Sprintf("%s commit index went from %d to %d", e.Node, old.Commit, st.Commit), e.Seq)
+			s.v("C11", "C11/commit-decreased", fmt.Sprintf("%s commit index went from %d to %d", e.Node, old.Commit, st.Commit), e.Seq)
 		}
 		if st.Applied < old.Applied {
 			s.v("C11", "C11/applied-decreased", fmt.Sprintf("%s last applied went from %d to %d", e.Node, old.Applied, st.Applied), e.Seq)
@@ -456,6 +488,15 @@ func (s *Safety) onHandled(e *Event) {
 	}
 	if m.Err != "" {
 		return
+	}
+	if m.Kind == "IS" {
+		delete(s.inflightIS[e.Node], m.ID)
+	}
+	if m.Kind == "IS" && m.Written == m.Offset+int64(m.Len) && (m.Len > 0 || m.Done) {
+		// the request was accepted into the snapshot file being received: it must belong to that snapshot
+		if o := s.openRecv[e.Node]; o != nil && (o.index != m.Prev || o.term != m.PrevT) {
+			s.mixedFiles[o.file] = fmt.Sprintf("request labelled (%d,t%d) offset %d len %d accepted into the file being received for snapshot (%d,t%d)", m.Prev, m.PrevT, m.Offset, m.Len, o.index, o.term)
+		}
 	}
 	if base, ok := s.termAtDel[m.ID]; ok && m.RTerm < base && !m.Dup {
 		s.v("C08", "C08/term-decreased", fmt.Sprintf("%s answered %s with term %d after term %d had been observed", e.Node, m.Kind, m.RTerm, base), e.Seq)
@@ -571,6 +612,26 @@ func (s *Safety) onRestore(e *Event) {
 
 func (s *Safety) onSnapFile(e *Event) {
 	sn := e.Snap
+	key0 := fmt.Sprintf("%d/%d/%d/%x", sn.Index, sn.Term, sn.Len, sn.H)
+	why, mixed := s.mixedFiles[sn.File]
+	if !mixed && sn.Origin == "received" && !s.localSnaps[key0] {
+		// the request that closes the file is still being handled: it is the one whose end offset
+		// equals the file size; if it carries another label, chunks were mixed
+		for _, m := range s.inflightIS[e.Node] {
+			if m.Done && m.Offset+int64(m.Len) == int64(sn.Len) && (m.Prev != sn.Index || m.PrevT != sn.Term) {
+				why = fmt.Sprintf("the closing request labelled (%d,t%d) offset %d len %d was accepted into the file being received for snapshot (%d,t%d)", m.Prev, m.PrevT, m.Offset, m.Len, sn.Index, sn.Term)
+				mixed = true
+			}
+		}
+	}
+	if mixed {
+		// root cause known: chunks of different snapshots ended up in one file (its stored label no
+		// longer describes its content). Reported under its own signature; no further checks on it.
+		s.v("C11", "C11/mixed-snapshot-chunks", fmt.Sprintf("%s closed a received snapshot file labelled (%d,t%d) that holds bytes of another snapshot: %s", e.Node, sn.Index, sn.Term, why), e.Seq)
+		s.v("C10", "C10/mixed-snapshot-chunks", fmt.Sprintf("%s closed a received snapshot file labelled (%d,t%d) that holds bytes of another snapshot: %s", e.Node, sn.Index, sn.Term, why), e.Seq)
+		s.poisoned = true
+		return
+	}
 	s.snapFiles = append(s.snapFiles, e)
 	key := fmt.Sprintf("%d/%d/%d/%x", sn.Index, sn.Term, sn.Len, sn.H)
 	if sn.Origin == "local" {
@@ -584,6 +645,18 @@ func (s *Safety) onSnapFile(e *Event) {
 	}
 	if sn.LedgerLast > sn.Index {
 		s.v("C10", "C10/snapshot-contains-later-op", fmt.Sprintf("%s %s snapshot labelled index %d contains the operation applied at index %d", e.Node, sn.Origin, sn.Index, sn.LedgerLast), e.Seq)
+	}
+	// the configuration stored with the snapshot is the one committed at or before its label
+	var ci uint64
+	for i, c := range s.committed {
+		if c.Y == 2 && i <= sn.Index && i > ci {
+			ci = i
+		}
+	}
+	if ci > 0 && sn.Conf != "" {
+		if s.committed[ci].H != HashBytes([]byte("conf:"+sn.Conf)) {
+			s.v("C10", "C10/snapshot-configuration", fmt.Sprintf("%s %s snapshot labelled index %d carries configuration %q, which is not the configuration committed at index %d", e.Node, sn.Origin, sn.Index, sn.Conf, ci), e.Seq)
+		}
 	}
 	if c, ok := s.committed[sn.Index]; ok && c.T != sn.Term {
 		s.v("C10", "C10/snapshot-label-term", fmt.Sprintf("%s snapshot labelled (%d,t%d) but index %d was committed in term %d", e.Node, sn.Index, sn.Term, sn.Index, c.T), e.Seq)
